@@ -162,3 +162,9 @@ package modules
 //@   ensures inc == 1 && concluded == 1
 //@   ensures panicked ==> err != nil && typeIs(err, *ModuleError) && reported
 //@   ensures !panicked ==> err == fnErr
+
+// Register never returns nil (it panics on duplicate names instead); used for package-level module variables
+//@ func Register
+//@   trusted
+//@   modifies *
+//@   ensures r0 != nil
